@@ -93,8 +93,12 @@ pub fn replay(sc: &Value) -> Value {
         }
         return json!({"violations": viol});
     }
+    if sc["state"].as_str() == Some("late-set") {
+        // this thread uses the macro before any client is set (documented panic) ...
+        let _ = catch_unwind(AssertUnwindSafe(|| call(mac, vty, nt, false)));
+    }
     let mut out = vec![];
-    // a failing and an accepting sink, one process-wide client: the failing one is what shows lost error reports
+    // ... then (or from the start) a failing and an accepting sink, one process-wide client: the failing one is what shows lost error reports
     let lines = Arc::new(Mutex::new(vec![]));
     let handled: Arc<Mutex<Vec<String>>> = Arc::new(Mutex::new(vec![]));
     let h2 = handled.clone();
